@@ -21,8 +21,22 @@ RNN = ("SimpleRNN", "LSTM", "GRU", "Bidirectional")
 SEP = ("SeparableConv1D", "SeparableConv2D")
 POOL = ("AveragePooling2D", "GlobalAveragePooling2D")
 IMG = ["Conv2D", "DepthwiseConv2D", "SeparableConv2D", "AveragePooling2D", "GlobalAveragePooling2D", "Dense", "ReLU", "Activation",
-       "BatchNormalization"]
-SEQ = ["Conv1D", "SeparableConv1D", "SimpleRNN", "LSTM", "GRU", "Bidirectional", "Dense", "ReLU", "Activation"]
+       "BatchNormalization", "User"]
+SEQ = ["Conv1D", "SeparableConv1D", "SimpleRNN", "LSTM", "GRU", "Bidirectional", "Dense", "ReLU", "Activation", "User"]
+
+
+class UserScale(L.Layer):
+  """A user-defined layer: known to the conversion only through custom_objects; nothing selects it."""
+
+  def __init__(self, factor=2.0, **kw):
+    super().__init__(**kw)
+    self.factor = factor
+
+  def call(self, x):
+    return x * self.factor
+
+  def get_config(self):
+    return dict(super().get_config(), factor=self.factor)
 QN = lambda k: "QActivation" if k in ("Activation", "ReLU", "LeakyReLU") else "Q" + k
 
 
@@ -81,6 +95,8 @@ def make(l):
     return L.ReLU(name=n)
   if k == "BatchNormalization":
     return L.BatchNormalization(name=n)
+  if k == "User":
+    return UserScale(0.5, name=n)
   raise ValueError(k)
 
 
@@ -156,6 +172,8 @@ def project(qm, model):
   for l in model:
     lay = qm.get_layer(l["name"])
     cls = lay.__class__.__name__
+    if cls == "UserScale":
+      cls = "User"
     r = {"cls": cls, "kq": "none", "bq": "none", "rq": "none", "sq": "none", "pq": "none", "act": "keep:" + l["act"]}
     if cls in ("QDense", "QConv2D", "QConv1D"):
       r["kq"] = sym(cls, "kernel_quantizer", lay.kernel_quantizer_internal, ("qA", "qB"))
@@ -237,6 +255,8 @@ def main():
       continue
     d = {}
     for l in model:
+      if l["kind"] == "User":
+        continue
       if rnd.random() < 0.55:
         d[QN(l["kind"])] = rnd.choice(entries(l["kind"]))
       if rnd.random() < 0.45:
@@ -244,7 +264,7 @@ def main():
     kind_of = {l["name"]: l["kind"] for l in model}
     kind_of.update({QN(l["kind"]): l["kind"] for l in model})
     qcfg = {k: entry(e, kind_of[k]) for k, e in d.items()}
-    co = {"my_custom": {"a": [1, 2]}}
+    co = {"my_custom": {"a": [1, 2]}, "UserScale": UserScale}
     qcfg0, co0 = copy.deepcopy(qcfg), copy.deepcopy(co)
     for lay in km.layers:
       ws = lay.get_weights()
